@@ -62,6 +62,15 @@ def _p9(ctx):
             e = g.switch_expr(sid)
             if any(s[0] == 'fld' and s[2] == 'InnerRecv.alive' for s in g.walk(e)):
                 alive_edges.update(x.switch_edges(sid, 'nonzero'))
+        if not alive_edges and 'Fut' in rsub:
+            # the explicit Drop does not unsubscribe itself (it leaves that to the destructor of its
+            # InnerRecv field, which runs AFTER this body): whatever it notifies is notified too early
+            pn = x.inlined(r'FutWait as wait::Wait>::notify$|FutWait::notify_all$')
+            ctx.add('P11e', 'T-MUST', d, False,
+                    'Drop for %s wakes the producer list without having unsubscribed first (the stream is only removed afterwards by the field destructor): '
+                    'a woken sink task still finds the queue full, parks again, and nothing notifies it after the removal' % rsub.split('|')[-1] if pn else
+                    'Drop for %s neither unsubscribes nor notifies the producer list' % rsub.split('|')[-1], sub=rsub + '|prod')
+            continue
         ctx.floor('P9a', len(alive_edges), 1, 'test of InnerRecv.alive in %s' % short_fn(d))
         decs = [a for a in x.atoms_on('ReaderMeta.num_consumers') if a.op in WRITE_OPS]
         listcas = [a for a in x.atoms_on('ReadCursor.readers') if a.op in WRITE_OPS]
